@@ -218,6 +218,7 @@ def run(ctx):
         "first use = the first write followed by a read on the stream; a write alone does not surface a refused optimistic choice (documented behaviour of the lazy client)",
         "the connection is direct (limited connections are C12); no security handshake on the in-memory transport; yamux is the muxer",
         "knowledge states are produced for real: accurate by identify (connect/reconnect, push), stale by changing the listener's table while the dialer does not support identify push, unknown by RemoveProtocols",
+        "application payload is opaque except for the first bytes of a first use on a refused optimistic stream, which may spell a multistream token of any of the 4 ids (known finding payload-parsed-as-proposal; TLC must find NoStray violated)",
         "an open that fails although a protocol was in common (stale optimistic choice, or any refusal) is not excluded by the statement: compared with the model's rule as L2 only",
     ]}
 
@@ -225,7 +226,7 @@ def run(ctx):
 MANIFEST = {
     "technique": "TLA+ spec (C07_Negotiate.tla) of the host's stream negotiation - handler table with the muxer's replace-and-append and first-match rules, the dialer's knowledge and its optimistic (lazy) choice, full negotiation, first use, flushing close, identify push - model-checked exhaustively with TLC on bounded instances; every transition of the replay instances executed on two real hosts (BasicHost and BlankHost on real swarms with real resource managers and real identify, joined by yamux over an in-memory pipe inside a testing/synctest bubble) with the statement's clauses evaluated from observations and the harness's own ledger after every step; a concurrent open/churn run under the same monitors",
     "category": "model_checking",
-    "text": "TLC visits every reachable (handler table, knowledge, open streams) state of the bounded instances and checks agreement, right handler, no-common and removed-never-runs as invariants/action properties over the code's rules (preferredProtocol = first requested id the peerstore lists; muxer = first entry in table order whose matcher accepts; re-registration moves an entry to the end; a lazy stream is negotiated at its first use or at its close). Covering walks over the complete printed graphs drive the real hosts through every transition: every request list of 1..3 ids against every table of the bound with every reachable knowledge (unknown, accurate, stale - stale produced for real by a dialer without identify push), with and without push, one and two open streams, both host implementations. After every step the harness compares Protocol() on both ends, which closure ran (identity, matcher, registration interval), the nonce echoed through exactly that invocation, ViewProtocol(id).Stat() of both resource managers against the live streams, and that nothing ran when no matcher accepted a requested id.",
+    "text": "TLC visits every reachable (handler table, knowledge, open streams) state of the bounded instances and checks agreement, right handler, no-common and removed-never-runs as invariants/action properties over the code's rules (preferredProtocol = first requested id the peerstore lists; muxer = first entry in table order whose matcher accepts; re-registration moves an entry to the end; a lazy stream is negotiated at its first use or at its close). Covering walks over the complete printed graphs drive the real hosts through every transition: every request list of 1..3 ids against every table of the bound with every reachable knowledge (unknown, accurate, stale - stale produced for real by a dialer without identify push), with and without push, one and two open streams, both host implementations. After every step the harness compares Protocol() on both ends, which closure ran (identity, matcher, registration interval), the nonce echoed through exactly that invocation, ViewProtocol(id).Stat() of both resource managers against the live streams, and that nothing ran when no matcher accepted a requested id. The first bytes of a first use may also spell a multistream token: after a refused optimistic choice the listener then starts that id's handler although nothing was in common (modelled as the code behaves, property NoStray expected violated, reported as known finding payload-parsed-as-proposal).",
     "note": "Trusted: TLC, testing/synctest (synctest.Wait as 'everything the call caused has happened'), the in-memory transport of the harness (yamux over a byte pipe, identities asserted), go-multistream. Bounded as listed. Which acceptable id/handler wins, lazy vs negotiated path, opens that fail although a protocol is in common, the dialer's knowledge and the table order are L2 (model's rule) only. Interleavings inside one negotiation are covered by the seeded concurrent run, not exhaustively. Limited connections are not exercised here (C12).",
     "engines": [{"name": "C07_Negotiate", "path": "spec/C07_Negotiate.tla", "serves_properties": ["C07"], "kind_free_text": "TLA+ spec + TLC exhaustive + full-transition replay on two real hosts + concurrent run under L1 monitors"}],
 }
